@@ -125,13 +125,21 @@ impl DatagramState {
             return Err(TransportError::PROTOCOL_VIOLATION("oversized datagram"));
         }
 
+        // Every buffered datagram occupies at least one byte of the window, so that empty datagrams
+        // cannot pile up without bound
+        let cost = datagram.data.len().max(1);
+        if cost > window {
+            debug!("dropping datagram: no buffer space");
+            return Ok(false);
+        }
+
         let was_empty = self.recv_buffered == 0;
-        while datagram.data.len() + self.recv_buffered > window {
+        while cost + self.recv_buffered > window {
             debug!("dropping stale datagram");
             self.recv();
         }
 
-        self.recv_buffered += datagram.data.len();
+        self.recv_buffered += cost;
         self.incoming.push_back(datagram);
         Ok(was_empty)
     }
@@ -203,7 +211,7 @@ impl DatagramState {
 
     pub(super) fn recv(&mut self) -> Option<Bytes> {
         let x = self.incoming.pop_front()?.data;
-        self.recv_buffered -= x.len();
+        self.recv_buffered -= x.len().max(1);
         Some(x)
     }
 }
